@@ -86,7 +86,13 @@ def gen_world(rng, k):
     # values of other namespaces, one of them reached only through the include of an include
     decls.append(dict(k='func', name='foo_use_base', ret='void', params=[['thing', 'BaseThing*'], ['box', 'MidBox*'], ['mode', 'BaseMode']], **at()))
     libs = rng.sample(['libfoo-core.so.0', 'libfoo-ui.so.1', 'libfoo-extra.so.0', 'libz.so.1', 'libA.so'], rng.randint(0, 4))
-    return dict(decls=decls, blocks=blocks, dump=dump, includes=['GLib', 'GObject', 'Mid'], libraries=libs,
+    idp = None
+    if rng.random() < 0.35:
+        # several identifier prefixes and no symbol prefix: the symbol prefixes are derived from them, one a prefix of another
+        idp = ['Foo', 'FooExtra', 'FooX']
+        decls.append(dict(k='func', name='foo_extra_run', ret='void', params=[['n', 'gint']], **at()))
+        decls.append(dict(k='func', name='foo_x_go', ret='void', params=[], **at()))
+    return dict(decls=decls, blocks=blocks, dump=dump, includes=['GLib', 'GObject', 'Mid'], libraries=libs, identifier_prefixes=idp,
                 c_includes=rng.sample(['foo.h', 'foo-a.h', 'Foo-d.h', 'sub/foo-c.h'], rng.randint(0, 3)),
                 packages=rng.sample(['foo-1.0', 'glib-2.0', 'gobject-2.0', 'Zlib'], rng.randint(0, 3)))
 
@@ -180,6 +186,49 @@ def main(tier, seed):
         nentries = len([f for f in os.listdir(os.path.join(cdir, 'g-ir-scanner'))]) if os.path.isdir(os.path.join(cdir, 'g-ir-scanner')) else 0
         cache_jobs.append((wi, 'cold cache', cold, nentries))
         cache_jobs.append((wi, 'warm cache, other hash seed', warm, nentries))
+    # two dependency GIRs whose paths differ only in letter case, with different contents and equal modification times: a cache
+    # filled while scanning against the one must not answer for the other
+    case_root = tempfile.mkdtemp(prefix='c16case', dir=os.path.join(ROOT, 'build'))
+    cachedirs.append(case_root)
+    dep = ('<?xml version="1.0"?>\n<repository version="1.2" xmlns="http://www.gtk.org/introspection/core/1.0" '
+           'xmlns:c="http://www.gtk.org/introspection/c/1.0" xmlns:glib="http://www.gtk.org/introspection/glib/1.0">\n'
+           '<namespace name="Dep" version="1.0" shared-library="libdep.so" c:identifier-prefixes="Dep" c:symbol-prefixes="dep">\n%s'
+           '</namespace>\n</repository>\n')
+    case_dirs = {}
+    for dname, body in (('Vendor', '<record name="Thing" c:type="DepThing"/>\n'), ('vendor', '<record name="Other" c:type="DepOther"/>\n')):
+        d_ = os.path.join(case_root, dname)
+        if os.path.isdir(d_) and case_dirs:
+            case_dirs = None        # a case-insensitive file system: the two paths are one
+            break
+        os.makedirs(d_)
+        for f_ in ('GLib-2.0.gir', 'GObject-2.0.gir'):
+            shutil.copy(os.path.join(HERE, 'stubgir', f_), os.path.join(d_, f_))
+        open(os.path.join(d_, 'Dep-1.0.gir'), 'w').write(dep % body)
+        os.utime(os.path.join(d_, 'Dep-1.0.gir'), (1500000000, 1500000000))
+        case_dirs[dname] = d_
+    case_jobs = None
+    if case_dirs:
+        cw = dict(decls=[dict(k='func', name='foo_take_thing', params=[['t', 'DepThing*']], ret='void', file='/src/foo.h', line=10)],
+                  blocks=[], includes=['GLib', 'GObject', 'Dep'])
+        try:
+            c1, c2 = os.path.join(case_root, 'cacheA'), os.path.join(case_root, 'cacheB')
+            first = run_variant(dict(cw, include_paths=[case_dirs['Vendor']]), 0, c1)
+            warm = run_variant(dict(cw, include_paths=[case_dirs['vendor']]), 0, c1)
+            cold = run_variant(dict(cw, include_paths=[case_dirs['vendor']]), 0, c2)
+            case_jobs = (first, warm, cold)
+        except Exception as e:      # noqa
+            ck.tie_broken('harness', 'the letter-case cache scenario could not be run: %r' % (e,))
+    if case_jobs:
+        first, warm, cold = case_jobs
+        ck.count_case(dict(scenario='dependency paths differing in letter case'), kind='cache:letter-case')
+        if first[0] is None or warm[0] is None or cold[0] is None:
+            ck.tie_broken('harness', 'the letter-case cache scenario failed: %s' % ((first[1] or warm[1] or cold[1]) or '')[-500:])
+        elif warm[0] != cold[0]:
+            ck.failing_input('the emitted GIR changes with the dependency cache: a cache filled from Vendor/Dep-1.0.gir answers for '
+                             'vendor/Dep-1.0.gir', dict(world=cw, vendor_first='<record name="Thing">', vendor_second='<record name="Other">'),
+                             detail=dict(diff=[l for l in warm[0].splitlines() if l not in cold[0].splitlines()][:5]))
+        elif first[0] == cold[0]:
+            ck.tie_broken('harness', 'the two dependency files of the letter-case scenario give the same GIR: the scenario tests nothing')
     for c in cachedirs:
         shutil.rmtree(c, ignore_errors=True)
     base = {}
